@@ -443,6 +443,29 @@ func c02TabCause(md goldmark.Markdown, cs c02Case) (string, bool) {
 	return "", false
 }
 
+var reOnlyQuoteMarkers = regexp.MustCompile(`^[ >]*>[ ]?$`)
+
+// c02EOFCause: a document that fails only without its final line ending, whose last line
+// consists of block quote markers and nothing else. After the markers are consumed the reader is
+// at the end of the source, which parseBlocks cannot tell from "no more lines" (PeekLine returns
+// nil): the empty remainder of that line is not handed to the open leaf block.
+func c02EOFCause(md goldmark.Markdown, cs c02Case) (string, bool) {
+	src := string(cs.Source)
+	if strings.HasSuffix(src, "\n") || src == "" {
+		return "", false
+	}
+	last := src[strings.LastIndexByte(src, '\n')+1:]
+	if !reOnlyQuoteMarkers.MatchString(last) {
+		return "", false
+	}
+	with := cs
+	with.Source = rawDoc(src + "\n")
+	if ok, _ := c02Check(md, with); !ok {
+		return "", false
+	}
+	return "C02/eof/last-line-of-only-quote-markers-without-line-ending", true
+}
+
 // c02TabClass maps (what precedes the tab, which construct follows the white space) to the
 // place in goldmark that measures this indentation in bytes instead of columns.
 func c02TabClass(before, after string) string {
@@ -591,6 +614,43 @@ func igCfg(budget int, sim, small bool, atoms string) string {
 
 const igAll = `{"word","esc","emph","code","link","ref","auto","raw","break"}`
 
+type bsConfig struct {
+	alpha string
+	lines int
+	laws  bool
+	num   int
+}
+
+// bsConfigs: the exhaustive BlockSem runs (alphabet, maximal number of lines); the model-level
+// laws (quote prefix = C08, concatenation = C09) are evaluated by TLC where laws is set.
+func bsConfigs(c *Ctx) []bsConfig {
+	if c.Thorough() {
+		return []bsConfig{{"tiny", 6, true, 0}, {"small", 4, false, 0}, {"small", 3, true, 0}, {"lists", 4, false, 0}, {"lists", 3, true, 0}, {"quotes", 3, true, 0}, {"leaves", 3, false, 0}, {"leaves", 2, true, 0}, {"wide", 2, true, 0}}
+	}
+	return []bsConfig{{"tiny", 4, true, 0}, {"small", 3, true, 0}, {"lists", 3, false, 0}, {"quotes", 2, true, 0}, {"leaves", 2, true, 0}, {"wide", 2, false, 0}}
+}
+
+func bsSimConfigs(c *Ctx) []bsConfig {
+	return []bsConfig{{"wide", 6, false, c.Pick(16000, 400000)}, {"lists", 8, false, c.Pick(16000, 400000)}, {"small", 7, false, c.Pick(8000, 200000)}}
+}
+
+func bsCfg(alpha string, lines int, sim, laws bool) string {
+	b := func(v bool) string {
+		if v {
+			return "TRUE"
+		}
+		return "FALSE"
+	}
+	inv := ""
+	if !sim {
+		inv = "INVARIANT Incremental\n"
+	}
+	if laws {
+		inv += "INVARIANT QuoteLaw\nINVARIANT ConcatLaw\n"
+	}
+	return fmt.Sprintf("CONSTANTS\n  MaxLines = %d\n  AlphaName = %q\n  Emit = TRUE\n  Sim = %s\n  Laws = %s\nINIT Init\nNEXT Next\nINVARIANT StackOK\n%sCONSTRAINT EmitDoc\nCHECK_DEADLOCK FALSE\n", lines, alpha, b(sim), b(laws), inv)
+}
+
 type c02Gen struct {
 	name     string
 	module   string
@@ -626,6 +686,8 @@ func runC02(c *Ctx) {
 		atomic.AddInt64(&bad, 1)
 		sig := c02Signature(cs)
 		if s, ok := c02TabCause(c02Config.build(), cs); ok {
+			sig = s
+		} else if s, ok := c02EOFCause(c02Config.build(), cs); ok {
 			sig = s
 		}
 		c.Report(Violation{Signature: sig, Detail: detail, Replay: cs})
@@ -667,13 +729,24 @@ func runC02(c *Ctx) {
 	)
 	gens = append(gens, c02Gen{fmt.Sprintf("InlineSem every line of up to %d tokens (reference delimiter-run algorithm)", c.Pick(5, 6)), "InlineSem",
 		fmt.Sprintf("CONSTANTS\n  MaxLen = %d\n  MaxRun = 3\n  Emit = TRUE\nINIT Init\nNEXT Next\nINVARIANT Balanced\nCHECK_DEADLOCK FALSE\n", c.Pick(5, 6)), "", 0, 60 * time.Minute})
+	for _, b := range bsConfigs(c) {
+		gens = append(gens, c02Gen{fmt.Sprintf("BlockSem alphabet %s, every document of up to %d lines (reference block-structure semantics)", b.alpha, b.lines), "BlockSem", bsCfg(b.alpha, b.lines, false, b.laws), "", 0, 60 * time.Minute})
+	}
+	for _, b := range bsSimConfigs(c) {
+		gens = append(gens, c02Gen{fmt.Sprintf("BlockSem alphabet %s, random documents of %d lines, simulation", b.alpha, b.lines), "BlockSem", bsCfg(b.alpha, b.lines, true, false), fmt.Sprintf("num=%d", b.num/4), b.lines + 1, 30 * time.Minute})
+	}
 	if c.Thorough() {
 		gens = append(gens, c02Gen{"CMGen budget 3, reduced spellings, exhaustive", "CMGen", cmCfg(3, 2, false, false), "", 0, 60 * time.Minute})
 	}
+	only := os.Getenv("C02_ONLY") // development aid: run only the generators of one module (no evidence is kept from such a run)
 	for gi, g := range gens {
+		if only != "" && g.module != only {
+			continue
+		}
 		var docs []cmDoc
 		var idocs []igDoc
-		var sems [][2]string
+		var sems, bsems [][2]string
+		nskip := 0
 		seen := map[string]bool{}
 		workers := 8
 		if g.simulate != "" {
@@ -686,6 +759,22 @@ func runC02(c *Ctx) {
 					return
 				}
 				seen[k] = true
+				if g.module == "BlockSem" {
+					var d struct {
+						Src  string `json:"src"`
+						HTML string `json:"html"`
+						Skip bool   `json:"skip"`
+					}
+					if err := json.Unmarshal(raw, &d); err != nil {
+						infra("bad BlockSem document: %v: %s", err, clip(k, 300))
+					}
+					if d.Skip {
+						nskip++
+						return
+					}
+					bsems = append(bsems, [2]string{d.Src, d.HTML})
+					return
+				}
 				if g.module == "InlineSem" {
 					var d struct {
 						Src  string `json:"src"`
@@ -726,10 +815,21 @@ func runC02(c *Ctx) {
 				judge(c02Case{Kind: "gen", Source: rawDoc("## x " + sems[i][0] + "\n"), Expect: "<h2>x " + sems[i][1] + "</h2>", Variant: "emphasis/atx", From: g.name})
 			}
 		})
-		if len(docs)+len(idocs)+len(sems) == 0 {
+		parallelFor(len(bsems), func(i int) {
+			judge(c02Case{Kind: "gen", Source: rawDoc(bsems[i][0]), Expect: bsems[i][1], Variant: "blocksem", From: g.name})
+			// without the final line ending: only when the last line is not empty (else a line would disappear)
+			if i%5 == 0 && strings.HasSuffix(bsems[i][0], "\n") && !strings.HasSuffix(bsems[i][0], "\n\n") && bsems[i][0] != "\n" {
+				judge(c02Case{Kind: "gen", Source: rawDoc(strings.TrimSuffix(bsems[i][0], "\n")), Expect: bsems[i][1], Variant: "blocksem/no-final-newline", From: g.name})
+			}
+		})
+		if g.module == "BlockSem" {
+			ev.Add("blocksem_documents", int64(len(bsems)))
+			ev.Add("blocksem_documents_skipped_as_not_literal", int64(nskip))
+		}
+		if len(docs)+len(idocs)+len(sems)+len(bsems) == 0 {
 			infra("%s: no documents generated\n%s", g.name, r.Tail)
 		}
-		ev.Add("generated_documents", int64(len(docs)+len(idocs)+len(sems)))
+		ev.Add("generated_documents", int64(len(docs)+len(idocs)+len(sems)+len(bsems)))
 		parallelFor(len(idocs), func(i int) {
 			cases := igCases(idocs[i], i, g.name)
 			for k, cs := range cases {
@@ -770,7 +870,9 @@ func runC02(c *Ctx) {
 	}
 
 	// ---- spec examples under licensed rewrites
-	c02Rewrites(c, md, judge)
+	if only == "" {
+		c02Rewrites(c, md, judge)
+	}
 
 	ev.Set("evaluations", atomic.LoadInt64(&evals))
 	ev.Set("exhaustive", true)
